@@ -9525,6 +9525,9 @@ class SVG(Group):
                 if elem[0] != SVG_ATTR_DATA:
                     # Rare wc3 test uses a 'd' namespace.
                     values[elem[0]] = elem[1]
+        if root is None:
+            # Nothing was retained: the outermost element is not rendered or its own attributes are in error.
+            return SVG()
         return root
 
 
